@@ -22,6 +22,7 @@ RULE = ('fault-free worlds with suites nested to depth 4, layer/level declaratio
         'distinct = digest of hook sequences + option keys; non-trivial = a filter removed '
         'something or children ran')
 T_FRAGS = ['test_a', 'test_b', 'test_c', 'TC0', 'TC1', 'test_m0', 'test_m1', r'TC[01]\.test_a',
+           '(?i)TEST_A', '(?i)tc1', r'(test_)a.*\1a', r'(?P<n>TC0).*(?P=n)',
            '^test_[ab] ', r'test_d\)$', '.', 'nomatch', 'm0.TC1']
 L_FRAGS = ['L0', 'L1', 'L2', 'L[12]$', 'UnitTests', 'layers', 'L3$', 'nomatch', '.']
 
